@@ -45,7 +45,19 @@ def replay_defrag_case(case):
     fd = to_fd(rec, seed, tm)
     h = zlib.crc32(repr(rec["file"]).encode())
     scaled_chan = add_scaling(fd, rec, tm) if (h + seed) % 3 == 0 else None
-    e = enc.encode(fd, seed)
+    if (h // 7 + seed) % 5 == 0:
+        # string channels holding only empty strings
+        orig = enc.value
+
+        def empty_strings(ty, p, k, seed=0, width=None, extra=0):
+            return "" if ty == "String" else orig(ty, p, k, seed, width, extra)
+        enc.value = empty_strings
+        try:
+            e = enc.encode(fd, seed)
+        finally:
+            enc.value = orig
+    else:
+        e = enc.encode(fd, seed)
     fails = []
     target = "path" if (h // 3 + seed) % 4 == 0 else "stream"
     index = (h // 12) % 2 == 1
@@ -73,8 +85,11 @@ def replay_defrag_case(case):
             copy_bytes = open(dst, "rb").read()
             if index:
                 # the copy must read the same through its own index file (discovered beside it)
-                via_index = proj.project_file(TdmsFile.read(dst, raw_timestamps=True))
-                plain = proj.project_file(TdmsFile.read(io.BytesIO(copy_bytes), raw_timestamps=True))
+                try:
+                    via_index = proj.project_file(TdmsFile.read(dst, raw_timestamps=True))
+                    plain = proj.project_file(TdmsFile.read(io.BytesIO(copy_bytes), raw_timestamps=True))
+                except Exception as ex:  # noqa
+                    via_index, plain = {"exception": repr(ex)}, None
                 if via_index != plain:
                     fails.append(({"kind": "copy-index-unusable"}, dict(bundle, with_index=via_index, without=plain)))
         else:
@@ -99,7 +114,12 @@ def replay_defrag_case(case):
         if tmp:
             shutil.rmtree(tmp, ignore_errors=True)
     src = proj.project_file(TdmsFile.read(io.BytesIO(e.data), raw_timestamps=True))
-    cpy = proj.project_file(TdmsFile.read(io.BytesIO(copy_bytes), raw_timestamps=True))
+    try:
+        cpy = proj.project_file(TdmsFile.read(io.BytesIO(copy_bytes), raw_timestamps=True))
+    except Exception as ex:  # noqa
+        fails.append((sig("copy-unreadable", exception=type(ex).__name__),
+                      dict(bundle, exception="%s: %s" % (type(ex).__name__, ex))))
+        return {"n": 1, "keys": [h], "fails": fails, "validated": 1}
     spec_copy = rec["copy"]
     if cpy["groups"] != spec_copy["groups"] or cpy["groups"] != src["groups"]:
         fails.append((sig("groups"), dict(bundle, expected=spec_copy["groups"], observed=cpy["groups"])))
